@@ -358,6 +358,42 @@ theorem forwarded_ack_from_asked_member_answers_the_round (hd : DistinctAddrs id
 
 end
 
+/-! ### the whole reply table, hop by hop -/
+
+/-- **Every request is answered as the reply table says** — Ping with Ack, PingReq with an IndirectPing to the named
+    target, IndirectPing with IndirectAck, IndirectAck with a ForwardedAck to the named origin, Announce with Feed:
+    a reachable calm instance that is not defunct and successfully handled such a request addressed to it has sent,
+    as the last datagram of the call, at most `max_packet_size` bytes to the table's destination whose header a peer
+    reads back as the table's answer from the instance's own identity and incarnation. The relay of C12 ("preserves
+    origin, target and probe number end to end") as a statement about the datagrams, hop by hop. -/
+theorem request_is_answered_as_the_table_says (E : Env) (τ : Id → Nat) (ids : List Id) (hhdr : HeaderLaw E.codec)
+    (hd : DistinctAddrs ids) {s s' : State} {data : Bytes} {orc left : Oracle} {eff : List Effect}
+    (hs : CalmInv E τ ids s) (hreach : Reachable E s) (hnu : s.conn ≠ .undead)
+    (hdat : DataOk E (CalmM τ ids) (CalmH τ ids) data)
+    (hstep : Foca.step E s (.data data) orc = .done s' eff .ok left)
+    (h : Header) (rest : Bytes) (hdec : E.codec.decHeader data = some (h, rest)) (hdst : h.dst = s.id)
+    (d : Id) (r : Msg) (hreply : C18.replyOf h.src h.msg = some (d, r)) :
+    ∃ pre bytes, eff = pre ++ [.send d bytes] ∧ bytes.length ≤ s'.cfg.mps ∧
+      (E.codec.decHeader bytes).map (·.1) = some ⟨s'.id, s'.inc, d, r⟩ := by
+  have hrun := step_data_ok E hstep
+  have hc0 : CalmSent E τ ids (fun _ => True) (Ctx.mk s [] orc).s (Ctx.mk s [] orc).eff :=
+    ⟨hs, by intro e he; simp at he⟩
+  have hpost := (CalmP.handleData E τ ids (fun _ => True) hd data hdat (fun _ _ _ _ _ _ _ => trivial)).run _ hc0
+  rw [hrun] at hpost
+  simp only at hpost
+  have hconn := calm_receiver_ends_up_connected E τ ids hd hs (MsInv.reachable E hreach) hnu hdat hstep h rest hdec hdst
+  obtain ⟨pre, bytes, he, hlen, hshape⟩ :=
+    request_is_answered E τ ids (fun _ => True) hd data _ _ hc0 hdat hrun h rest hdec hdst d r hreply hconn
+  refine ⟨pre, bytes, he, hlen, ?_⟩
+  obtain ⟨hh, _⟩ := hdat h rest hdec
+  obtain ⟨hdw, hrw⟩ := reply_wire hh.1 hreply
+  have hw : HWire ⟨s'.id, s'.inc, d, r⟩ := by
+    refine ⟨hpost.1.1.1, ?_, hdw, hrw⟩
+    show s'.inc < 65536
+    rw [hpost.1.2.1.1]; omega
+  exact shape_header E hhdr hshape hw
+
+
 /-! ### non-vacuity: the worked example of `C12H` (instance 1 learns member 2, starts a round for it under number 1,
    the Ack numbered 1 from member 2 arrives) meets every premise of `round_answered_when_ack_handled` -/
 
